@@ -1285,6 +1285,21 @@ namespace
                 if (l.has("zero")) { env.ports.emplace(id, wire<stdlib::reduce_>(w, f, d, Int{l.geti("zero")}).as<TS<Int>>()); }
                 else { env.ports.emplace(id, wire<stdlib::reduce_>(w, f, d).as<TS<Int>>()); }
             }
+            else if (kind == "lred")
+            {
+                // in=<a>,<b>,<c>  comb=add|min|max: reduce_ over a fixed-size list of three scalar streams with a lifted scalar function
+                auto              lst  = stdlib::to_tsl<TS<Int>>(w, in.at(0), in.at(1), in.at(2));
+                const std::string comb = l.gets("comb", "add");
+                if (comb == "min")
+                {
+                    env.ports.emplace(id, wire<stdlib::reduce_>(w, lift<stdlib::scalar_min<Int>, std::numeric_limits<Int>::max()>(), lst).as<TS<Int>>());
+                }
+                else if (comb == "max")
+                {
+                    env.ports.emplace(id, wire<stdlib::reduce_>(w, lift<stdlib::scalar_max<Int>, std::numeric_limits<Int>::min()>(), lst).as<TS<Int>>());
+                }
+                else { env.ports.emplace(id, wire<stdlib::reduce_>(w, lift<stdlib::scalar_add<Int>>(), lst).as<TS<Int>>()); }
+            }
             else if (kind == "rrec") { wire<VRRec>(w, sid, resolve(env, sp.ins.at(0)), env.dports.at(std::stol(sp.ins.at(1)))); }
             else if (kind == "ite")
             {
